@@ -16,7 +16,7 @@
  *   xxo <o0> <o1> …                                 | model input (driver reads these)
  *   pat <i> <rows> <row>:<s|t|d|j|x>:<param> …      |
  *   end                                            /
- *   aux chn <n> nobpm <0|1> tf <time_factor> rrate <rrate> vocab <ok|bad>
+ *   aux chn <n> nobpm <0|1> cmpvbl <m->compare_vblank> tf <time_factor> rrate <rrate> vocab <ok|bad>
  *   scan ok nseq <n>
  *   ctl <sequence_control[0..len)>
  *   info <ord>:<time ms>:<speed>:<bpm> …           (orders with time >= 0)
@@ -149,8 +149,8 @@ static int dump_module(struct context_data *ctx, int maxframes)
 	printf("end\n");
 	if (m->time_factor != 10.0 || m->rrate != 250.0 || (ctx->p.flags & XMP_FLAGS_VBLANK))
 		bad = 1;
-	printf("aux chn %d nobpm %d tf %g rrate %g vocab %s\n", mod->chn, (m->quirk & QUIRK_NOBPM) ? 1 : 0,
-	       m->time_factor, m->rrate, bad ? "bad" : "ok");
+	printf("aux chn %d nobpm %d cmpvbl %d tf %g rrate %g vocab %s\n", mod->chn, (m->quirk & QUIRK_NOBPM) ? 1 : 0,
+	       m->compare_vblank ? 1 : 0, m->time_factor, m->rrate, bad ? "bad" : "ok");
 	return bad;
 }
 
